@@ -178,3 +178,45 @@ def pinv_cutoff(call):
             continue
         return _ast.unparse(v)
     return None
+
+
+def flat_method(ci, name, depth=2, stop=()):
+    """FuncInfo copy of method `name` of class `ci` with the class's private helpers inlined (AST partial evaluation, conditional expressions
+    lowered; structure only).  The original FuncInfo when nothing changes."""
+    import ast as _ast
+    import copy
+    from ..engine import peval
+    from ..engine.model import AnalysisError
+    f = ci.methods.get(name)
+    if f is None:
+        raise AnalysisError('anchor vanished: %s.%s' % (ci.name, name))
+    flat = peval.flatten({n_: f_.node for n_, f_ in ci.methods.items()}, f.node, depth=depth, stop=stop, impure=True)
+    _ast.fix_missing_locations(flat)
+    if _ast.dump(flat) == _ast.dump(f.node):
+        return f
+    g = copy.copy(f)
+    g.node = flat
+    for parent in _ast.walk(flat):
+        for ch in _ast.iter_child_nodes(parent):
+            f.module.parents[ch] = parent
+    f.module.parents[flat] = f.module.parents.get(f.node)
+    return g
+
+
+def flat_function(fi, depth=2, stop=()):
+    """FuncInfo copy of a module-level function with the module's private helpers (`_h(...)`) inlined; the original when nothing changes."""
+    import ast as _ast
+    import copy
+    from ..engine import peval
+    mod_funcs = {n_.name: n_ for n_ in fi.module.tree.body if isinstance(n_, _ast.FunctionDef)}
+    flat = peval.flatten_function(mod_funcs, fi.node, depth=depth, stop=stop, impure=True)
+    _ast.fix_missing_locations(flat)
+    if _ast.dump(flat) == _ast.dump(fi.node):
+        return fi
+    g = copy.copy(fi)
+    g.node = flat
+    for parent in _ast.walk(flat):
+        for ch in _ast.iter_child_nodes(parent):
+            fi.module.parents[ch] = parent
+    fi.module.parents[flat] = fi.module.parents.get(fi.node)
+    return g
